@@ -88,7 +88,7 @@ def rand_case(rng, entry, kinds=("plain", "ret", "fail"), weights=(3, 3, 2), max
     tag = entry in TAGGED
     rules = mk_rules(rng, k, kinds, weights, stop_p=0.3 if tag else 0.0)
     c = {"entry": entry, "rules": rules, "b": rng.random() < 0.5, "n": 0, "m": 0, "names": [], "layers": [],
-         "stop0": tag and rng.random() < 0.08, "prev": rng.choice(["fresh", "stale"]), "hold": ""}
+         "stop0": tag and rng.random() < 0.08, "prev": rng.choice(["fresh", "stale", "stale-empty"]), "hold": ""}
     if entry in NM:
         if k >= 2 and rng.random() < 0.8:
             n = rng.randint(1, k - 1)
@@ -129,6 +129,33 @@ def run_sharded(cases, timeout=240):
     return sorted([o for out in outs for o in out], key=lambda o: o["id"])
 
 
+def denote_history(history):
+    cur = {}
+    for op in history:
+        if op["kind"] == "full":
+            cur = {r["name"]: r for r in op["rules"]}
+        elif op["kind"] == "incr":
+            for r in op["rules"]:
+                cur[r["name"]] = r
+        else:
+            for n in op["names"]:
+                cur.pop(n, None)
+    return list(cur.values())
+
+
+def order_problem(c, o):
+    """C04/C08: the installed order must be the denoted rules, each once, in non-increasing current salience."""
+    if not c.get("history") or o.get("order") is None or o.get("crash"):
+        return None
+    den = {r["name"]: r["sal"] for r in c["rules"]}
+    if sorted(o["order"]) != sorted(den):
+        return "installed order %s is not the denoted rule set %s" % (o["order"], sorted(den))
+    sals = [den[n] for n in o["order"]]
+    if any(sals[i] < sals[i + 1] for i in range(len(sals) - 1)):
+        return "installed order %s is not in non-increasing salience order %s" % (o["order"], sals)
+    return None
+
+
 def model_order(c, o):
     """c_rules in the order the builder installed them (observed), falling back to a stable sort."""
     byname = {r["name"]: r for r in c["rules"]}
@@ -144,7 +171,7 @@ def coq_case(c, o):
     cfg = "mkCfg %s %s %s %s %s %s %s %s" % (
         rl, coq_bool(c["b"]), coq_z(c["n"]), coq_z(c["m"]), coq_list([coq_str(n) for n in c["names"]]),
         coq_list([coq_list([coq_str(n) for n in ly]) for ly in c["layers"]]), coq_bool(c["stop0"]),
-        "None" if c["prev"] == "fresh" else "(Some [%s])" % coq_str("old__"))
+        "None" if c["prev"] == "fresh" else ("(Some [])" if c["prev"] == "stale-empty" else "(Some [%s])" % coq_str("old__")))
     crash = bool(o.get("crash") or o.get("panic") or o.get("hang"))
     tr = coq_list([("St " if k == "S" else "En ") + coq_str(n) for k, n in o["events"]])
     keys = coq_list([coq_str(k) for k in sorted(o["result"].keys())])
@@ -203,6 +230,11 @@ def value_problems(c, o):
     """Result-map VALUES (the Coq side compares keys): a returning rule's entry must hold its value."""
     bad = []
     byname = {r["name"]: r for r in c["rules"]}
+    # the map handed back by the EARLIER call on this engine must not have been touched by this call
+    if c.get("prev") in ("stale", "stale-empty") and o.get("prime_keys") is not None and not o.get("crash"):
+        want = ["old__"] if c["prev"] == "stale" else []
+        if o["prime_keys"] != want:
+            bad.append(("<map of the earlier call>", o["prime_keys"], want))
     for k, v in o["result"].items():
         r = byname.get(k)
         if r is None:
@@ -236,12 +268,20 @@ def campaign(run, pid, cases, entries, design_rule, extra_obligations=()):
     for i, c in enumerate(cases):
         c["id"] = i
         c.setdefault("via", "engine")
+        if c.get("history"):
+            c["rules"] = denote_history(c["history"])
         detie(c)
         c.setdefault("quiet_ms", 25 if run.tier == "quick" else 80)
     run.log("running %d calls on the implementation (%d with a held rule)" % (len(cases), sum(1 for c in cases if c["hold"])))
     obs = run_sharded(cases)
     for o in obs:
         if o.get("compile"):
+            c = cases[o["id"]]
+            if c.get("history"):   # a builder operation of the history failed or panicked: that is a finding, not a harness error
+                o["crash"] = "history"
+                o["stderr"] = o["compile"]
+                o["order"] = None
+                continue
             raise HarnessError("observer rule set does not compile: " + o["compile"])
     mism, nn, npar = evaluate(pid, cases, obs)
     byid = {o["id"]: o for o in obs}
@@ -251,6 +291,10 @@ def campaign(run, pid, cases, entries, design_rule, extra_obligations=()):
         vp = value_problems(c, byid[c["id"]])
         if vp and not any(i == c["id"] for i, _ in spec_bad):
             spec_bad.append((c["id"], 4))
+        op = order_problem(c, byid[c["id"]])
+        if op:
+            byid[c["id"]]["order_problem"] = op
+            spec_bad.append((c["id"], 2))
     run.log("checked inside Coq: %d disagreement(s) with the specification, %d with the generated skeleton" % (len(spec_bad), len(model_bad)))
     reported = {}
     for cid, code in spec_bad:
